@@ -951,6 +951,8 @@ func c7Ctor(c *Ctx, fi *FuncInfo, sliceF *types.Var) {
 				// append(make(S, 0, n), values...) is a fresh copy as well
 				if sv != nil && sv.Op == "builtin" && sv.Sym == "append" && len(sv.Args) == 2 && sv.Args[0].Op == "mkslice" && sv.Args[0].Args[0].IsConst("0") && sv.Args[1].Key() == values.Key() {
 					copied = true
+				} else if sv != nil && sv.Op == "call" && sv.Sym == "slices.Clone" && len(sv.Args) == 1 && sv.Args[0].Key() == values.Key() {
+					copied = true // the library's own copying helper, decided by the clone-helper rule (dependency closure)
 				} else if sv == nil || sv.Op != "mkslice" {
 					ok, why = false, fmt.Sprintf("on a path the Sorted keeps %s, not a fresh copy of the input (%s)", sv, p.CondString())
 					continue
@@ -970,7 +972,7 @@ func c7Ctor(c *Ctx, fi *FuncInfo, sliceF *types.Var) {
 					if e.Kind == "store" && rootOf(e.Addr).Key() == values.Key() {
 						ok, why = false, "writes the caller's slice"
 					}
-					if e.Kind == "call" && e.Name != "builtin.copy" && e.Name != "builtin.len" && e.Name != "builtin.append" {
+					if e.Kind == "call" && e.Name != "builtin.copy" && e.Name != "builtin.len" && e.Name != "builtin.append" && e.Name != "slices.Clone" {
 						for _, a := range e.Args {
 							if a != nil && stripIface(a).Key() == values.Key() {
 								ok, why = false, "passes the caller's slice to "+e.Name+" (reorders or keeps it)"
